@@ -2,6 +2,8 @@
 from __future__ import annotations
 
 import numpy as np
+
+from vlib import hooks
 from hypothesis import strategies as st
 
 from vlib import gens
@@ -122,6 +124,8 @@ def body_under(case):
 
             X, Bp = lsq_linear_underdetermined(sv.A, B, W=(None if W is None else w), underdetermined_opt=arg, l2_eps=eps, return_pred=True, **sv.kwargs())
     X, Bp = np.asarray(X), np.asarray(Bp)
+    solves = hooks.events("solve")
+    scs_fallback = (not hooks.available()) or any(e.get("solver") == "SCS" and e.get("status") == "optimal_inaccurate" for e in solves)
     check(X.shape == (B.shape[0], sv.n) and Bp.shape == B.shape, "under:shape", f"{X.shape} {Bp.shape}")
     rng = sv.ub - sv.lb
     tolx = 1e-4 * float(np.max(rng))
@@ -136,8 +140,9 @@ def body_under(case):
     goal = goal_fn(kind, opt)
     for i, b in enumerate(B):
         res = float(np.linalg.norm(w * (model[i] - b)))
-        # the default conic solvers satisfy a constraint to about 1e-5 of the size of the data (CLARABEL optimal_inaccurate, SCS)
-        check(res <= 1.05 * eps + 1e-6 + 1e-5 * float(np.max(np.abs(b))), "under:target-not-reproduced", f"weighted capture error {res:.3g} exceeds the requested tolerance {eps:.3g} (option {kind})",
+        # the default conic solvers satisfy a constraint to about 1e-5 of the size of the data (CLARABEL optimal_inaccurate); when the
+        # default solver failed and the fallback SCS answered "optimal_inaccurate", its own tolerances (1e-4 absolute + relative) apply
+        check(res <= 1.05 * eps + 1e-6 + (1e-4 * (1.0 + float(np.max(np.abs(b)))) if scs_fallback else 1e-5 * float(np.max(np.abs(b)))), "under:target-not-reproduced", f"weighted capture error {res:.3g} exceeds the requested tolerance {eps:.3g} (option {kind})",
               observed=dict(b=b.tolist(), x=X[i].tolist()))
         x = np.clip(X[i], sv.lb, sv.ub)
         g_code = goal(x)
